@@ -41,6 +41,7 @@ def required_cells(tier):
     req["dir:random"] = 200
     req["history:hash-alike-axis-built-first"] = 100
     req["radius:Fraction"] = 200
+    req["history:rejected-builder-call-first"] = 300
     req["radius:int"] = 200
     for n in (3, 4, 5, 24):
         req["n:%d" % n] = 5
@@ -97,13 +98,13 @@ def cases(rng, budget, widx, nworkers, tier):
             if K.cross(u, v) == (0, 0, 0):
                 continue
             s = rng.choice((0.5, 1.0, 1.0, 2.0))
-            yield {"b": b, "c": c, "vs": [[x * s for x in u], [float(x) for x in v]]}
+            yield {"b": b, "c": c, "vs": [[x * s for x in u], [float(x) for x in v]], "reject_first": rng.random() < 0.3}
         elif b == "Parallelepiped":
             u, v, w = rng.sample(dirs2, 3)
             if K.det3(u, v, w) == 0:
                 continue
             s = rng.choice((0.5, 1.0, 1.0, 2.0))
-            yield {"b": b, "c": c, "vs": [[x * s for x in u], [float(x) for x in v], [float(x) for x in w]]}
+            yield {"b": b, "c": c, "vs": [[x * s for x in u], [float(x) for x in v], [float(x) for x in w]], "reject_first": rng.random() < 0.3}
         elif b == "Sphere":
             yield {"b": b, "c": c, "r": rng.choice((0.25, 0.5, 1.0, 2.0, 3.0, 7.5)) if rng.random() < 0.5 else rng.uniform(0.26, 7.9),
                    "n1": rng.choice((3, 4, 5, 6, 8, 10, 12)), "n2": rng.choice((2, 2, 3, 3, 4, 5)), "rt": rng.choice(("float", "float", "float", "Fraction", "int"))}
@@ -120,7 +121,8 @@ def cases(rng, budget, widx, nworkers, tier):
                 lab = "small-integer"
             n = rng.choice((3, 3, 4, 5, 6, 7, 8, 10, 12, 17, 24)) if rng.random() < 0.8 else rng.randint(3, 24)
             yield {"b": b, "c": c, "r": rng.choice((0.25, 0.5, 1.0, 2.0, 3.0, 7.5)) if rng.random() < 0.5 else rng.uniform(0.26, 7.9),
-                   "axis": d, "n": n, "alab": lab, "twin_axis": twin, "rt": rng.choice(("float", "float", "float", "Fraction", "int"))}
+                   "axis": d, "n": n, "alab": lab, "twin_axis": twin, "rt": rng.choice(("float", "float", "float", "Fraction", "int")),
+                   "reject_first": rng.choice((None, None, None, None, "Circle", "Cylinder", "Cone"))}
 
 
 def _rel(mu, what, got, want, key):
@@ -164,6 +166,16 @@ def judge(case):
     centre = G.Point(*c)
     key = b
     if b in ("Parallelogram", "Parallelepiped"):
+        if case.get("reject_first"):
+            mu.cell("history:rejected-builder-call-first")
+            for fnm in ("Circle", "Cylinder", "Cone"):
+                try:
+                    if fnm == "Circle":
+                        G.Circle(G.Point(*c), G.Vector(1, 2, 2), 1.5, 2)
+                    else:
+                        getattr(G, fnm)(G.Point(*c), 1.5, G.Vector(1, 2, 2), 2)
+                except Exception:
+                    pass
         vs = [G.Vector(*v) for v in case["vs"]]
         fn = getattr(G, b)
         obj, exc, imp = M.call(fn, centre, *vs)
@@ -271,6 +283,18 @@ def judge(case):
     # Circle / Cylinder / Cone
     axis = tuple(case["axis"])
     n = case["n"]
+    if case.get("reject_first"):
+        # a builder call that is (rightly) rejected comes first and is caught by the caller, as a program would
+        mu.cell("history:rejected-builder-call-first")
+        for bad_n in (2, 1):
+            try:
+                tv = G.Vector(*axis)
+                if case["reject_first"] == "Circle":
+                    G.Circle(G.Point(*c), tv, r, bad_n)
+                else:
+                    getattr(G, case["reject_first"])(G.Point(*c), r, tv, bad_n)
+            except Exception:
+                pass
     if case.get("twin_axis"):
         # the same builder is first called with a different axis whose components hash alike in
         # Python (-1.0 / -2.0): whatever the first call leaves behind must not leak into the second
